@@ -2,6 +2,11 @@ import SR.Proofs.MarketOracle
 /-!
 # C05 — adequacy of the job-market bookkeeping oracle `o-mk` (`Drv/C05.lean`: `oracle`, `oracleEnd`)
 
+All theorems are about `oracleR` (`SR/Proofs/MarketOracle.lean`), a literal copy of `Drv.C05.oracle`, whose `.split`
+clause demands conservation only (kept jobs a sub-multiset of the deque, `eraseAll?`; the former clause demanded that they
+are the PREFIX, an over-demand: C05 does not pin which jobs `split_and_push` keeps — `C05_oracle_split_relaxed`).
+`C05_oracle_is_relaxed : oracle = oracleR` (end of the file) carries them to the live oracle and to `handle`.
+
 Property theorems only; definitions and lemmas are in `SR/Proofs/MarketOracle.lean`.
 
 **Model side.**  `mkRun s evs` is the driver's `replay` (`mk-run`) with answers as data (`Ans`) and `none` where `replay`
@@ -35,7 +40,7 @@ The FULL statement (for the record; it is false, see `C05_oracle_rejects_undisci
 
   theorem C05_oracle_accepts_model_runs (k tc : Nat) (h : tc ≤ k) (evs as sf rs)
       (hrun : mkRun (init k tc) evs = some (as, sf)) (hrs : RendersAll as rs) :
-      ∃ of, oracle k { locs := List.replicate k [] } evs rs = .ok of ∧ (mayEnd sf = true → oracleEnd of = none)
+      ∃ of, oracleR k { locs := List.replicate k [] } evs rs = .ok of ∧ (mayEnd sf = true → oracleEnd of = none)
 -/
 
 /-- **Every disciplined run of the market machine passes the oracle.**  `tc ≤ k`, `evs` an event list the model accepts
@@ -48,23 +53,13 @@ theorem C05_oracle_accepts_model_runs_partial (k tc : Nat) (h : tc ≤ k) (evs :
     (hrun : mkRun (init k tc) evs = some (as, sf))
     (hdisc : disciplined (init k tc) false evs = true)
     (hrs : RendersAll as rs) :
-    (∃ of, oracle k { locs := List.replicate k [] } evs rs = .ok of ∧ Sim k sf of ∧
+    (∃ of, oracleR k { locs := List.replicate k [] } evs rs = .ok of ∧ Sim k sf of ∧
       (mayEnd sf = true → oracleEnd of = none))
     ∧ (mayEnd sf = true → verdict k evs rs = "ok") := by
   obtain ⟨of, h1, h2⟩ := sim_run evs (init k tc) { locs := List.replicate k [] } as sf rs (sim_init k tc h) hrun hdisc hrs
   refine ⟨⟨of, h1, h2, sim_end h2⟩, ?_⟩
   intro he
   simp [verdict, h1, sim_end h2 he]
-
-/-- the same for the driver command as `handle` parses it: `k`, the events and the results arrive as S-expressions -/
-theorem C05_oracle_handle_ok (k tc : Nat) (h : tc ≤ k) (evs : List Ev) (as : List Ans) (sf : MState)
-    (ksx tcsx esx : SExp) (rs : List SExp)
-    (hk : ksx.nat? = some k) (he : esx.listOf? evOf? = some evs)
-    (hrun : mkRun (init k tc) evs = some (as, sf))
-    (hdisc : disciplined (init k tc) false evs = true)
-    (hrs : RendersAll as rs) (hend : mayEnd sf = true) :
-    Drv.C05.handle "o-mk" [ksx, tcsx, esx, .list rs] = some "ok" := by
-  rw [handle_omk rs hk he, (C05_oracle_accepts_model_runs_partial k tc h evs as sf rs hrun hdisc hrs).2 hend]
 
 /-- the model side IS the driver's `mk-run`: the answers of `replay` are the renderings of `as` -/
 theorem C05_oracle_model_side_is_replay (s : MState) (evs : List Ev) (as : List Ans) (sf : MState)
@@ -140,8 +135,11 @@ theorem C05_oracle_rejects_undisciplined_run :
         = "closed-by-last-worker-with-jobs-on-the-market"
     ∧ verdict 1 [.pop 0, .xpush [5], .closed] [.list [], .atom "-", .atom "t"]
         = "is_closed-with-jobs-on-the-market"
-    ∧ verdict 1 [.pop 0, .xpush [5]] [.list [], .atom "-"] = "jobs-left-on-an-open-market-after-drain" :=
-  ⟨by decide, ⟨rfl, trivial, rfl, trivial⟩, by decide, by decide, by decide, by decide⟩
+    ∧ verdict 1 [.pop 0, .xpush [5]] [.list [], .atom "-"] = "jobs-left-on-an-open-market-after-drain"
+    -- the live `oracle` answers the same
+    ∧ verdictLive 1 [.pop 0, .xpush [5], .shut] [.list [], .atom "-", .atom "t"]
+        = "closed-by-last-worker-with-jobs-on-the-market" :=
+  ⟨by decide, ⟨rfl, trivial, rfl, trivial⟩, by decide, by decide, by decide, by decide, by decide⟩
 
 /-- with the probe logged where the harness logs it, the same operations pass -/
 example : disciplined (init 1 1) false [.pop 0, .shut, .xpush [5], .closed] = true
@@ -170,7 +168,7 @@ theorem C05_oracle_rejects_tc_gt_k :
        been notified by a stop and must wake next (`mustWake`); at an accepted end (`oracleEnd = none`) a worker is
        awake. -/
 theorem C05_oracle_sound (k : Nat) (evs : List Ev) (rs : List SExp) (of : Obs)
-    (h : oracle k { locs := List.replicate k [] } evs rs = .ok of) :
+    (h : oracleR k { locs := List.replicate k [] } evs rs = .ok of) :
     let l := ledger { locs := List.replicate k [] } evs rs
     (∃ lost : List Nat, l.pushed.Perm (l.popped ++ of.market ++ lost))
     ∧ (noClose evs rs = true → l.pushed.Perm (l.popped ++ of.market))
@@ -221,7 +219,7 @@ theorem C05_oracle_sound (k : Nat) (evs : List Ev) (rs : List SExp) (of : Obs)
 
 -- an accepted list, evaluated (`exEvs2` / `exRs2` above): the oracle's final state
 example :
-    (match oracle 2 { locs := List.replicate 2 [] } exEvs2 exRs2 with
+    (match oracleR 2 { locs := List.replicate 2 [] } exEvs2 exRs2 with
       | .ok o => o.parked == [] && o.exited == [1, 0] && o.dropSeen && o.mustWake == [] && o.locs == [[], []]
       | .error _ => false) = true := by decide
 example :
@@ -245,5 +243,67 @@ example : verdict 2 [.xpush [1, 2], .pop 0] [.atom "-", .atom "park"] = "worker-
     ∧ verdict 2 [.pop 0, .xdrop, .pop 1] [.atom "park", .atom "-", .list []] = "a-worker-asleep-at-a-stop-did-not-wake"
     ∧ verdict 2 [.pop 0, .xdrop] [.atom "park", .atom "-"] = "a-worker-asleep-at-a-stop-never-woke"
     ∧ verdict 2 [.xdrop, .shut] [.atom "-", .atom "f"] = "market-reopened-or-stop-not-visible" := by decide
+
+/-! ## 3. the relaxed `.split` clause -/
+
+/-- worker 0 takes `[1, 2]`, worker 1 sleeps, worker 0 splits, worker 1 is woken and takes what was shared -/
+def exSplitEvs : List Ev := [.xpush [1, 2], .pop 0, .pop 1, .split 0, .wake 1]
+
+/-- **A `split_and_push` that keeps the SUFFIX (shares from the front) is accepted by the relaxed oracle, one that invents
+    or duplicates a job is rejected** (the live oracle before the replacement of its `.split` clause answered `split-reordered-or-invented-jobs` on the harmless one).  `rk` is the answer of
+    `split` (the jobs kept); the token lists are given by what the results parse to (`String.toNat?` has no kernel
+    reduction, so numerals cannot be `decide`d). -/
+theorem C05_oracle_split_relaxed (r12 rk rw : SExp) (h12 : resToks? r12 = some [1, 2]) (hw : resToks? rw = some [1]) :
+    (resToks? rk = some [2] →
+      verdict 2 exSplitEvs [.atom "-", r12, .atom "park", rk, rw] = "ok")
+    ∧ (resToks? rk = some [3] →
+      verdict 2 exSplitEvs [.atom "-", r12, .atom "park", rk, rw] = "split-invented-or-duplicated-jobs")
+    ∧ (resToks? rk = some [2, 2] →
+      verdict 2 exSplitEvs [.atom "-", r12, .atom "park", rk, rw] = "split-invented-or-duplicated-jobs") := by
+  obtain ⟨x12, rfl⟩ := resToks?_list h12
+  obtain ⟨xw, rfl⟩ := resToks?_list hw
+  refine ⟨?_, ?_, ?_⟩
+  · intro hk
+    obtain ⟨xk, rfl⟩ := resToks?_list hk
+    simp [verdict, exSplitEvs, oracleR, h12, hw, hk, eraseAll?, awake, oracleEnd, List.range, List.range.loop]
+  · intro hk
+    obtain ⟨xk, rfl⟩ := resToks?_list hk
+    simp [verdict, exSplitEvs, oracleR, h12, hk, eraseAll?, awake, List.range, List.range.loop]
+  · intro hk
+    obtain ⟨xk, rfl⟩ := resToks?_list hk
+    simp [verdict, exSplitEvs, oracleR, h12, hk, eraseAll?, awake, List.range, List.range.loop]
+
+-- the model's own split (keeps the PREFIX `[1]`, shares `[2]`) on the same operations: a legal, disciplined run
+example :
+    (mkRun (init 2 2) exSplitEvs).map (·.1) =
+      some [.dash, .pop (.got [1, 2]), .pop .park, .toks [1], .pop (.got [2])]
+    ∧ disciplined (init 2 2) false exSplitEvs = true := by decide
+
+/-- the live `Drv.C05.oracle` IS the relaxed oracle (the `.split` clause of `Drv/C05.lean` has been replaced) -/
+theorem C05_oracle_is_relaxed : @oracle = @oracleR := by
+  funext k o evs rs
+  induction evs generalizing o rs with
+  | nil => cases rs <;> rfl
+  | cons e es ih =>
+    cases rs with
+    | nil => rfl
+    | cons r rs =>
+      rw [oracle_cons]
+      have : (fun o' => oracleR k o' es rs) = fun o' => oracle k o' es rs := funext fun o' => (ih o' rs).symm
+      rw [this]
+      cases e <;> simp only [oracle, obody] <;> rfl
+
+/-- the driver command as `handle` parses it answers `ok` on every disciplined model run that may end: `k`, the events and
+    the results arrive as S-expressions -/
+theorem C05_oracle_handle_ok (k tc : Nat) (h : tc ≤ k) (evs : List Ev) (as : List Ans)
+    (sf : MState) (ksx tcsx esx : SExp) (rs : List SExp)
+    (hk : ksx.nat? = some k) (he : esx.listOf? evOf? = some evs)
+    (hrun : mkRun (init k tc) evs = some (as, sf))
+    (hdisc : disciplined (init k tc) false evs = true)
+    (hrs : RendersAll as rs) (hend : mayEnd sf = true) :
+    Drv.C05.handle "o-mk" [ksx, tcsx, esx, .list rs] = some "ok" := by
+  rw [handle_omk rs hk he, verdictLive_eq C05_oracle_is_relaxed,
+    (C05_oracle_accepts_model_runs_partial k tc h evs as sf rs hrun hdisc hrs).2 hend]
+
 
 end SR.C05Oracle
